@@ -1,7 +1,7 @@
 //! C20 - mismatched shapes are rejected; operands are never mutated; clones are independent.
 use mc::bfs::*;
 use mc::*;
-use ohsl::{Banded, Matrix, Mesh1D, Mesh2D, Polynomial, Sparse, Tridiagonal, Vector};
+use ohsl::{Banded, Cmplx, Matrix, Mesh1D, Mesh2D, Polynomial, Sparse, Tridiagonal, Vector};
 use std::cell::RefCell;
 use std::collections::BTreeMap;
 
@@ -774,12 +774,88 @@ fn pair_of(o: Obj) -> Pair {
     Pair { b: o.clone(), a: o, ma: c.clone(), mb: c }
 }
 
+/// owned and borrowed operator forms on element types with signed zeros / infinities: results compared through their Debug
+/// rendering, which distinguishes -0.0 from 0.0 (the by-reference form is the definition, the consuming form must equal it)
+fn owned_vs_borrowed<T>(e: &[T], sc: &[T]) -> Result<(), String>
+where
+    T: Copy + PartialOrd + ohsl::Number + ohsl::Signed + std::fmt::Debug + std::ops::Neg<Output = T>,
+{
+    macro_rules! same {
+        ($what:expr, $a:expr, $b:expr) => {{
+            let (x, y) = (format!("{:?}", $a), format!("{:?}", $b));
+            ensure!(x == y, "{}: borrowed form gives {} but consuming form gives {}", $what, x, y);
+        }};
+    }
+    // 2x2 matrices a (entries e[0..4]) and b (rotated)
+    let mk = |o: usize| {
+        let mut m = Matrix::new(2, 2, e[o % 4]);
+        for k in 0..4 {
+            m[(k / 2, k % 2)] = e[(k + o) % 4];
+        }
+        m
+    };
+    let (a, b) = (mk(0), mk(1));
+    let v = Vector::create(vec![e[2], e[1]]);
+    same!("-Matrix", -&a, -a.clone());
+    same!("Matrix + Matrix", &a + &b, a.clone() + b.clone());
+    same!("Matrix - Matrix", &a - &b, a.clone() - b.clone());
+    same!("Matrix * Matrix", &a * &b, a.clone() * b.clone());
+    same!("Matrix * Vector", &a * &v, a.clone() * v.clone());
+    for s in sc {
+        same!(format!("Matrix * {:?}", s), &a * *s, a.clone() * *s);
+        same!(format!("Matrix / {:?}", s), &a / *s, a.clone() / *s);
+    }
+    // vectors
+    let (x, y) = (Vector::create(e.to_vec()), Vector::create(vec![e[3], e[0], e[1], e[2]]));
+    same!("Vector + Vector", &x + &y, x.clone() + y.clone());
+    same!("Vector + &Vector", &x + &y, x.clone() + &y);
+    same!("Vector - Vector", &x - &y, x.clone() - y.clone());
+    same!("Vector - &Vector", &x - &y, x.clone() - &y);
+    // banded 3x3 with one sub- and one super-diagonal
+    let mkb = |o: usize| {
+        let mut m = Banded::new(3, 1, 1, e[o % 4]);
+        let mut k = o;
+        for i in 0..3usize {
+            for j in 0..3usize {
+                if j <= i + 1 && i <= j + 1 {
+                    m[(i, j)] = e[k % 4];
+                    k += 1;
+                }
+            }
+        }
+        m
+    };
+    let (p, q) = (mkb(0), mkb(1));
+    let w = Vector::create(vec![e[2], e[1], e[3]]);
+    same!("-Banded", -&p, -p.clone());
+    same!("Banded + Banded", &p + &q, p.clone() + q.clone());
+    same!("Banded - Banded", &p - &q, p.clone() - q.clone());
+    same!("Banded * Vector", &p * &w, p.clone() * w.clone());
+    for s in sc {
+        same!(format!("Banded * {:?}", s), &p * *s, p.clone() * *s);
+        same!(format!("Banded / {:?}", s), &p / *s, p.clone() / *s);
+    }
+    // tridiagonal
+    let t = Tridiagonal::with_vecs(vec![e[0], e[1]], vec![e[1], e[2], e[3]], vec![e[3], e[0]]);
+    same!("Tridiagonal * Vector", &t * &w, t.clone() * w.clone());
+    // polynomials
+    let (f, g) = (Polynomial::new(e.to_vec()), Polynomial::new(vec![e[1], e[3], e[0]]));
+    same!("-Polynomial", -&f, -f.clone());
+    same!("Polynomial + Polynomial", &f + &g, f.clone() + g.clone());
+    same!("Polynomial - Polynomial", &f - &g, f.clone() - g.clone());
+    same!("Polynomial * Polynomial", &f * &g, f.clone() * g.clone());
+    for s in sc {
+        same!(format!("Polynomial * {:?}", s), &f * *s, f.clone() * *s);
+    }
+    Ok(())
+}
+
 fn main() {
     let ctx = Ctx::from_args("C20");
     ctx.level("model_checking");
     ctx.rule("E1 entry-point table: every binary operator (owned and borrowed), solver entry and checked accessor of Vector, Matrix, Banded, Tridiagonal, Sparse, Mesh1D/2D and Polynomial x ALL pairs of sizes/shapes up to 6 (matrices up to 3x3 quick / 4x4 thorough; accessors with every argument up to size+2): the call must panic iff the pair is a mismatch / the argument out of range; after a refusal every operand equals its snapshot (nothing written before the check); by-reference and &self operations leave operands unchanged; owned and borrowed forms return identical results. E2: BFS over interleavings of mutations on a value and its clone (and re-cloning either way) for Vector, Matrix, Banded, Tridiagonal, Polynomial, with independent models. Non-trivial: mismatched pairs, out-of-range arguments. The raw (i,j) index operators of Matrix, Banded and Mesh2D are excluded as the property states.");
     ctx.assume("0x0 systems are not passed to the dense solvers (n >= 1 in C01)");
-    ctx.require(&["mismatched or out-of-range calls", "conforming calls", "mutation of the original", "mutation of the clone", "state where original and clone differ"]);
+    ctx.require(&["mismatched or out-of-range calls", "conforming calls", "mutation of the original", "mutation of the clone", "owned/borrowed pair on signed-zero data", "state where original and clone differ"]);
     let nm = ctx.pick(3, 4);
     let groups: Vec<(&str, Box<dyn Fn(&mut Vec<(String, String)>) + Sync>)> = vec![
         ("Vector", Box::new(vector_entries)),
@@ -825,6 +901,30 @@ fn main() {
             }
         },
     );
+    {
+        let fl = [0.0f64, -0.0, 1.5, -2.0, f64::INFINITY, f64::NEG_INFINITY];
+        let cl = [Cmplx::new(0.0, 0.0), Cmplx::new(-0.0, -0.0), Cmplx::new(0.0, -0.0), Cmplx::new(1.5, -2.0), Cmplx::new(f64::INFINITY, 1.0), Cmplx::new(-2.0, 0.0), Cmplx::new(0.0, 3.0)];
+        ctx.lattice(
+            "owned vs borrowed operator forms on f64 with signed zeros and infinities: all 4-tuples over 6 letters",
+            6u64.pow(4),
+            |i| format!("{}", i),
+            |i, acc| {
+                let e: Vec<f64> = (0..4).map(|k| fl[((i / 6u64.pow(k)) % 6) as usize]).collect();
+                acc.nontriv("owned/borrowed pair on signed-zero data");
+                judge(acc, i, || format!("f64 entries {:?}", e), || owned_vs_borrowed(&e, &[2.0, -1.0, 0.0, -0.0]));
+            },
+        );
+        ctx.lattice(
+            "owned vs borrowed operator forms on Complex<f64> with signed zero parts and infinite parts: all 4-tuples over 7 letters",
+            7u64.pow(4),
+            |i| format!("{}", i),
+            |i, acc| {
+                let e: Vec<Cmplx> = (0..4).map(|k| cl[((i / 7u64.pow(k)) % 7) as usize]).collect();
+                acc.nontriv("owned/borrowed pair on signed-zero data");
+                judge(acc, i, || format!("Complex<f64> entries {:?}", e), || owned_vs_borrowed(&e, &[Cmplx::new(2.0, 0.0), Cmplx::new(-1.0, 0.0), Cmplx::new(0.0, 1.0), Cmplx::new(0.0, 0.0)]));
+            },
+        );
+    }
     let depth = ctx.pick(4, 6);
     let inits = vec![
         pair_of(Obj::V(vecr(3, 0))),
